@@ -1,6 +1,6 @@
 (* C18 — schema detection and job diffs are exact summaries of the state points.
    Statements only; proofs in SV.C18Proofs (reusing the index invariant of SV.QueryProofs). *)
-From SV Require Import Base Json PyVal Query QueryProofs C06Proofs Schema C18Proofs CorrC18.
+From SV Require Import Base Json PyVal Query QueryProofs C06Proofs Schema C18Proofs C18Const CorrC18.
 
 (* keys: exactly the dotted leaf keys present in the selected jobs — no side condition *)
 Theorem C18_schema_keys_exact : forall jobs,
@@ -42,6 +42,38 @@ Theorem C18_all_jobs_have_key : forall c key, length (kvals c key) = length c ->
 Proof. exact kvals_full_all_have. Qed.
 Print Assumptions C18_all_jobs_have_key.
 
+(* mapping-valued keys (repair of known finding C18 tag 2): the constancy test of the model, stated on the
+   state points -- a dropped key is one on which the selected jobs agree, mappings included *)
+Theorem C18_exclude_const_sound_partial : forall jobs (nodes : list str),
+  nodes <> [] -> Forall (fun n => contains_char dot n = false) nodes ->
+  let k := join_with dot (s_sp :: nodes) in
+  SlotInj (map snd (kvals (sp_corpus jobs) k)) ->
+  (forall v, In v (map snd (kvals (sp_corpus jobs) k)) -> slot_eq v v = true) ->
+  (forall i sp, In (i, sp) jobs -> fits SFUEL (sp_doc sp) = true) ->
+  schema_const (sp_corpus jobs) k = true ->
+  jobs <> [] /\
+  exists v0, forall i sp, In (i, sp) jobs ->
+    exists x, lookup_path sp nodes = Some x /\ as_key x = v0 /\ (is_obj x = true -> x = JObj []).
+Proof. exact schema_const_sound. Qed.
+Print Assumptions C18_exclude_const_sound_partial.
+
+(* no dotted key of the selected jobs extends the key  <=>  every mapping held under it is empty *)
+Theorem C18_mappings_not_extended_are_empty : forall jobs (nodes : list str),
+  nodes <> [] ->
+  (forall i sp, In (i, sp) jobs -> fits SFUEL (sp_doc sp) = true) ->
+  key_extended (sp_corpus jobs) (join_with dot (s_sp :: nodes)) = false ->
+  forall i sp m, In (i, sp) jobs -> lookup_path sp nodes = Some (JObj m) -> m = [].
+Proof. exact const_mapping_sound. Qed.
+Print Assumptions C18_mappings_not_extended_are_empty.
+
+Theorem C18_empty_mappings_are_not_extended : forall jobs (nodes : list str),
+  nodes <> [] -> Forall (fun n => contains_char dot n = false) nodes ->
+  (forall i sp, In (i, sp) jobs ->
+     wf sp = true /\ NoDotKeys sp /\ lookup_path sp nodes = Some (JObj [])) ->
+  key_extended (sp_corpus jobs) (join_with dot (s_sp :: nodes)) = false.
+Proof. exact const_mapping_complete. Qed.
+Print Assumptions C18_empty_mappings_are_not_extended.
+
 (* diffs: own pairs split into the diff and the part shared (Python ==) by all jobs *)
 Theorem C18_diff_partition : forall jobs sp pr, In pr (leaf_pairs sp) ->
   (In pr (diff_pairs jobs sp) /\ shared_by_all jobs pr = false) \/
@@ -79,3 +111,13 @@ Example C18_example_exact :
   schema_exact false jobs (detect_schema false jobs) = true /\
   schema_exact true jobs (detect_schema true jobs) = true.
 Proof. exact schema_example_exact. Qed.
+
+Example C18_example_mappings :
+  let w := [job18 1 (JObj [(key_x18, JStr key_x18)]); job18 2 (JObj [])] in
+  let e := [([1%N], JObj [(key_a18, JObj []); (key_b18, JInt 1)]);
+            ([2%N], JObj [(key_a18, JObj []); (key_b18, JInt 2)])] in
+  schema_const (sp_corpus w) (join_with dot [s_sp; key_a18]) = false /\
+  schema_exact true w (detect_schema true w) = true /\
+  schema_const (sp_corpus e) (join_with dot [s_sp; key_a18]) = true /\
+  schema_exact true e (detect_schema true e) = true.
+Proof. exact const_mapping_examples. Qed.
